@@ -30,7 +30,7 @@ def _sample(case):
 class Runner:
     def __init__(self, ctx):
         self.ctx = ctx
-        self.terms, self.meta, self.weight, self.direct_fail = [], [], [], []
+        self.terms, self.meta, self.weight, self.direct_fail, self.single_fail = [], [], [], [], []
         self.engine_s = 0.0
 
     def add(self, case):
@@ -47,6 +47,16 @@ class Runner:
         if canon is None:
             self.direct_fail.append((case, {"rows": recs[:30], "why": why}))
             return
+        if case["thresholds"][0] == "wf":
+            # property oracle directly on the implementation: multi-threshold vs independent single-threshold runs
+            t1 = time.time()
+            ok_, info = X.single_vs_multi(case, recs)
+            self.engine_s += time.time() - t1
+            on_thr = sum(1 for e in case["edges"] if isinstance(e[2], float)
+                         and any(e[2] == X.single_threshold_prob(w) for w in case["thresholds"][1]))
+            ctx.hist("edges exactly on a weight-derived threshold", min(on_thr, 5))
+            if not ok_:
+                self.single_fail.append((case, info))
         n = len(case["nodes"])
         kind, vals = case["thresholds"]
         ds = X.distinct_sorted(case)
@@ -57,7 +67,7 @@ class Runner:
         ctx.count_case(key, nontrivial, _sample(case))
         ctx.hist("family", case["family"].rstrip("0123456789x"))
         ctx.hist("backend/output", f"{case['backend']}/{'stats' if case.get('stats') else 'detailed'}")
-        ctx.hist("threshold form", "weight" if kind == "w" else "probability")
+        ctx.hist("threshold form", {"w": "integer weight", "wf": "fractional weight", "p": "probability"}[kind])
         ctx.hist("thresholds", len(vals))
         ctx.hist("order", "sorted" if list(X.thr_values(case)) == sorted(X.thr_values(case)) else "unsorted")
         ctx.hist("duplicates", len(vals) != len(ds))
@@ -98,6 +108,13 @@ def generate(ctx: Ctx, R: Runner):
             idkind = ["int", "str", "link"][(fi + rd) % 3]
             n = rng.choice([6, 10, 16, 25, 40]) if quick else rng.choice([6, 10, 16, 25, 40, 80, 150])
             R.add(X.build_case(rng, fam, n, backend, idkind, stats=(rng.random() < 0.35)))
+    # ---- fractional match weights, edges exactly on the converted threshold ------------------------
+    for i in range(48 if quick else 200):
+        fam = X5.FAMILIES[i % len(X5.FAMILIES)]
+        backend = "duckdb" if i % 2 == 0 else "sqlite"
+        idkind = ["int", "str"][(i // 2) % 2]
+        n = rng.choice([4, 6, 9, 14]) if quick else rng.choice([4, 6, 9, 14, 30])
+        R.add(X.build_wf_case(rng, fam, n, backend, idkind, stats=(rng.random() < 0.3)))
     if not quick:
         for fam, n in [("cliques_bridges", 300), ("forest_small", 500), ("random_sparse", 400), ("path_random", 200)]:
             R.add(X.build_case(rng, fam, n, "duckdb", "int", stats=False))
@@ -143,7 +160,9 @@ def run(ctx: Ctx):
         "thresholds by position, summary rows by ascending threshold_match_probability",
         "modelled not verified: SQL LEFT JOIN / GROUP BY HAVING coalesce(min) / NOT IN / IN semantics (DESIGN 3b); "
         "single-threshold clustering inside the routine is replaced by its C05 spec (C05 checks that link)",
-        "non-integer match weights not exercised; avg_cluster_size compared within 1e-9",
+        "fractional match weights: the model's threshold is the exact rational the engine compares against when given "
+        "the probability the implementation's single-threshold conversion computes (probed on the 7 doubles around it on "
+        "an independent connection: DuckDB reads the literal as DECIMAL and can sit one ulp off); avg_cluster_size within 1e-9",
     ]
     ok = ctx.proof_stage("Properties/C11.v")
     if not ok:
@@ -168,6 +187,18 @@ def run(ctx: Ctx):
             small, info2 = case, info
         ctx.violation("implementation raised or did not return one row per node / one column (row) per threshold",
                       {"case": small, "implementation": info2}, X.features_of(small))
+    for case, info in R.single_fail[:3]:
+        small = X.shrink(case, holds=X.single_vs_multi)
+        ok_, info2 = X.single_vs_multi(small)
+        if ok_:
+            small, info2 = case, info
+        ctx.violation("the multi-threshold clusters for a match weight differ from clustering independently at that weight "
+                      "(cluster_pairwise_predictions_at_threshold(threshold_match_weight=w)) on the same inputs",
+                      {"case": small, "implementation": info2,
+                       "specification": "column / summary row of weight w = independent single-threshold run at w",
+                       "single_threshold_probabilities": {str(w): repr(X.single_threshold_prob(w)) for w in small["thresholds"][1]}},
+                      X.features_of(small))
+    ctx.obligation("weight form: multi-threshold = independent single-threshold runs (direct oracle)", not R.single_fail)
     ctx.obligation("implementation output has the expected shape for every case", not R.direct_fail)
     N = len(R.terms)
     S = max(1, min(16, (N + 79) // 80))
